@@ -90,6 +90,10 @@ def trackStep (t : Track) : Op × Ans → Track
     if reached && pset = some true then
       (if justified t h c uid then t else t.fail "unbacked-authentication")
     else t
+  -- stored hashes in every supported format verify exactly their own password
+  | (.phc ds v m p q, .phc r) =>
+    let t := if r = .matched true && q ≠ p then t.fail "hash-verifies-foreign-password" else t
+    if m = .none && ds.contains v && r ≠ .matched (q = p) then t.fail "hash-does-not-verify-exactly-its-password" else t
   | _ => t
 
 def track (tr : List (Op × Ans)) : Track := tr.foldl trackStep {}
